@@ -91,6 +91,14 @@ CHECKS["C18"] = dict(
     design="5/C18",
 )
 
+CHECKS["C08"] = dict(
+    engine="E1-config-lattice",
+    technique="full product of per-point boundary alphabets evaluated through the real (pointwise) eval_xc_cider for every state of the configuration lattice; generators and integrators on densities with exact zeros / denormals",
+    text="Because eval_xc_cider is pointwise in the grid index, one call on an array holding the full product of per-point alphabets (16 density values incl. 0, denormal, both sides of every cutoff 1e-10 / rhocut/2 / rhocut, 1e6; zero, tiny, von-Weizsaecker-consistent and huge gradients; tau from tau_W to 1e10 tau_ueg; nonlocal slots 0 / UEG value / huge / negative; for nspin=2 every point paired with itself, a typical point and zero) decides all of them; this is repeated for the full products semilocal mode x baseline (native and libxc) x spin mode x nspin, family x evaluator x normalisation x nspin, family x mode x mix x rho_mult. Every output must be finite and, with no semilocal part, points well below the cutoff must have exactly zero energy density and potentials. NLDF and SDMX generators are run on real grids with zero / denormal / step densities and far or coincident points, and nr_rks/nr_uks on atoms with grids reaching hundreds of Bohr.",
+    note="Admissible inputs only (rho>=0, tau>=tau_W); exact-zero clause asserted below 0.2*rhocut; a libxc additive baseline is semilocal, not ML energy.",
+    design="5/C08",
+)
+
 NOT_YET = {}
 
 
